@@ -779,15 +779,84 @@ theorem termData_spec (os : Os) (hk : os.killed.isSome = true) (st : ExecSt) :
   unfold termDataWith
   cases hs : st.data <;> simp [hk]
 
+/-! ### the table side condition is NECESSARY for detection (witness states: one child, exit code 0 / never started) -/
+
+theorem holds_zero (p : FailPred) : p.holds (some 0) = (p == .exited) := by
+  cases p <;> rfl
+
+theorem exitedRow_of_classFails_zero (t : HealthTable) (c : ChildClass) (h : classFails t c (some 0) = true) :
+    t.rows.any (fun r => r.child == c && r.raises && r.pred == .exited) = true := by
+  unfold classFails at h
+  rw [List.any_eq_true] at h ⊢
+  obtain ⟨r, hr, hx⟩ := h
+  refine ⟨r, hr, ?_⟩
+  simp only [rowFails, holds_zero, Bool.and_eq_true] at hx ⊢
+  exact ⟨⟨hx.1, hx.2.1⟩, hx.2.2⟩
+
+def oneWorker (h : Handle) : ExecSt := { host := "h", workers := [("h.w0", h)], shm := none, data := none, terminating := false }
+def noWorker (shm data : Option Int) : ExecSt := { host := "h", workers := [], shm := shm, data := data, terminating := false }
+
+theorem allRaise_of_detects (t : HealthTable) (h : ∀ st : ExecSt, DeadChild st → (healthcheck t st).isSome = true) :
+    allRaise t = true := by
+  have hw := h (oneWorker (.proc (some 0) false)) (Or.inl ⟨"h.w0", _, by simp [oneWorker], Or.inr ⟨0, false, rfl⟩⟩)
+  have hn := h (oneWorker .notStarted) (Or.inl ⟨"h.w0", _, by simp [oneWorker], Or.inl rfl⟩)
+  have hs := h (noWorker (some 0) none) (Or.inr (Or.inl rfl))
+  have hd := h (noWorker none (some 0)) (Or.inr (Or.inr rfl))
+  simp only [healthcheck, oneWorker, noWorker, List.findSome?, workerCheck, classFails_none] at hw hn hs hd
+  have hw' : classFails t .worker (some 0) = true := by
+    by_cases hc : classFails t .worker (some 0) = true
+    · exact hc
+    · simp [hc] at hw
+  have hn' : t.workerNoneRaises = true := by
+    by_cases hc : t.workerNoneRaises = true
+    · exact hc
+    · simp [hc] at hn
+  have hs' : classFails t .shm (some 0) = true := by
+    by_cases hc : classFails t .shm (some 0) = true
+    · exact hc
+    · simp [hc] at hs
+  have hd' : classFails t .dataServer (some 0) = true := by
+    by_cases hc : classFails t .dataServer (some 0) = true
+    · exact hc
+    · simp [hc] at hd
+  simp [allRaise, exitedRow_of_classFails_zero t _ hw', exitedRow_of_classFails_zero t _ hs', exitedRow_of_classFails_zero t _ hd', hn']
+
 end Aux
 
 /-! ## the property theorems -/
 
-/-- DETECTION. With the healthcheck as it is in the source (generated table; side condition by `decide`):
-whenever some worker-side child has exited — any exit code, 0 included — or was never started,
-the next `healthcheck` raises. -/
+/-- DETECTION. For the healthcheck DESCRIBED BY THE GENERATED TABLE `Gen.healthTable` (side condition by `decide`):
+whenever some worker-side child has exited — any exit code, 0 included — or was never started, the next `healthcheck` raises.
+The quantifier over ALL exit codes is a statement about the table's predicate classes (`exited`: `exitcode is not None`,
+`nonzero`, `never`). That the SOURCE predicate is in the class the table names is established outside Lean, by the translator
+`health` of harness/ekw/props/c05.py: it reads the tests of `Executor.healthcheck` STRUCTURALLY (`x is None`, `x is not None`,
+comparisons of the exit code with integer literals, `in (literals)`, truth value, not/and/or, one-parameter lambda helpers
+inlined; if/elif chains combined in order) and decides the class exactly (a Boolean combination of such atoms is constant
+between consecutive literals, so its values on None and on every literal and its neighbours decide it); any other shape, or
+a predicate in none of the three classes (e.g. `ex is not None and ex != -2`), is reported as a broken tie, and the check then
+calls the real healthcheck with every exit code None, -255..255 for each kind of child and reports a code that goes unnoticed
+as a failing input. -/
 theorem c05_detects (st : ExecSt) (h : DeadChild st) : (healthcheck Gen.healthTable st).isSome = true :=
   Aux.detects_of_allRaise Aux.health_all_raise st h
+
+/-- DETECTION, CHARACTERISED. For ANY table of the model's shape (whatever the translator produces from whatever source):
+every dead child is detected IF AND ONLY IF the side condition `allRaise` holds. So the side condition that `decide` checks on
+the generated table is not merely sufficient: a healthcheck whose test for some kind of child is not of class `exited`
+(`nonzero`: exit code 0 goes unnoticed, the pinned defect C05-healthcheck-exit0; `never`), or whose branch does not `raise`,
+or that lets a never-started worker pass, PROVABLY misses a dead child (witnesses: an executor with one child that has ended
+with exit code 0, or one never-started worker). -/
+theorem c05_detects_iff_table (t : HealthTable) :
+    (∀ st : ExecSt, DeadChild st → (healthcheck t st).isSome = true) ↔ allRaise t = true :=
+  ⟨Aux.allRaise_of_detects t, fun h st hd => Aux.detects_of_allRaise h st hd⟩
+
+/-- non-vacuity: the pinned tree's table (the shm/data-server branches were bare `ValueError(...)` expressions, not raises) and a
+`nonzero` worker test both fail detection -/
+example : ¬ ∀ st : ExecSt, DeadChild st →
+    (healthcheck { rows := [⟨.worker, .exited, true⟩, ⟨.shm, .exited, false⟩, ⟨.dataServer, .exited, false⟩], workerNoneRaises := true } st).isSome = true := by
+  rw [c05_detects_iff_table]; decide
+example : ¬ ∀ st : ExecSt, DeadChild st →
+    (healthcheck { rows := [⟨.worker, .nonzero, true⟩, ⟨.shm, .exited, true⟩, ⟨.dataServer, .exited, true⟩], workerNoneRaises := true } st).isSome = true := by
+  rw [c05_detects_iff_table]; decide
 
 /-- ... and it raises only then: with every child running the healthcheck is silent (no spurious failure). -/
 theorem c05_detects_only (st : ExecSt) (h : AllAlive st) : healthcheck Gen.healthTable st = none :=
@@ -894,22 +963,22 @@ theorem c05_run_finally (fuel : Nat) (c : Ctrl) (stream : List (List CMsg)) (hru
   unfold runLoop
   simp only [ha, Bool.not_true, Bool.false_eq_true, if_false, hre]
 
-/-- the hypothesis of the bounded-time theorems, NAMED: they are stated for the steps `tick`, `deliver`, `ctrl` of
-Model/Failure.lean, in which `deliver` hands EVERYTHING in flight to the controller's listener — delivery is LOSSLESS.
-C06's theorems give this for a message whose sender stays alive and retries; the `ExecutorFailure`/`ExecutorExit` of an
-executor that then leaves its loop is sent once and not retried (known finding C06-exit-unretried), so for that
-message losslessness is an ASSUMPTION of C05, not a consequence of C06. What happens without it:
-`c05_bounded_full_fails` (Props/C05N.lean). -/
-def LosslessDelivery : Prop := ∀ s : Sys, (deliver s).ctrlInbox = s.ctrlInbox ++ s.net ∧ (deliver s).net = []
+/- Where the partiality of the two bounded-time theorems below sits: NOT in a hypothesis but in the step relation. `Step` of
+Model/Failure.lean has the constructors `tick`, `deliver`, `ctrl` only, and `deliver` hands EVERYTHING in flight to the
+controller's listener: this one-executor model cannot lose a message, so the theorems say nothing about runs in which the
+report of the failing executor is lost. (An earlier version carried a hypothesis `LosslessDelivery` that was provable by `rfl`
+and never used; it is gone.) Loss is a step of the N-executor model (`StepN.lose`, Model/FailureN.lean): there the hypothesis
+`NoLoss sched` of `c05_never_hangs_any_shape_partial` is real, and without it the statement FAILS
+(`c05_bounded_full_fails`, Props/C05N.lean: the `ExecutorFailure`/`ExecutorExit` of an executor that then leaves its loop is
+sent once and never retried -- known finding C06-exit-unretried; C06 gives delivery only while the sender lives). -/
 
-theorem losslessDelivery_model : LosslessDelivery := fun _ => ⟨rfl, rfl⟩
-
-/-- BOUNDED (three rounds; partial: lossless delivery, one executor — any cluster shape: `c05_never_hangs_any_shape_partial`).
+/-- BOUNDED (three rounds; partial: the model's `deliver` is lossless BY CONSTRUCTION and there is one executor -- any
+cluster shape and an explicit loss step: `c05_never_hangs_any_shape_partial`, `c05_bounded_full_fails`).
 From any state in which the controller is running and a live executor sees a raised task or a dead child: after one
-executor iteration, one (lossless) delivery and one controller iteration the run HAS ENDED (returned or raised — `starved`
+executor iteration, one delivery and one controller iteration the run HAS ENDED (returned or raised — `starved`
 is not an end); it has ended with an error — after at least one `bridge.shutdown()` — whenever the controller was
 still waiting for a task or a requested output. -/
-theorem c05_bounded_partial (_hl : LosslessDelivery) (s : Sys) (hrun : s.ctrl.status = .running) (hp : AtExecutor s) :
+theorem c05_bounded_lossless_partial (s : Sys) (hrun : s.ctrl.status = .running) (hp : AtExecutor s) :
     let s' := ctrlStep (deliver (execTick Gen.healthTable s))
     Ended s' ∧
     (awaitable s.ctrl = true → s'.ctrl.status = .endedErr ∧ s'.ctrl.shutdownCalls ≥ s.ctrl.shutdownCalls + 1) := by
@@ -932,11 +1001,11 @@ theorem c05_bounded_partial (_hl : LosslessDelivery) (s : Sys) (hrun : s.ctrl.st
     rw [hcalls, hc]; omega
   · rw [Aux.scan_reason hat] at hr; cases hr
 
-/-- NEVER HANGS (any fair schedule; partial: lossless delivery, one executor). From any state in which the controller
+/-- NEVER HANGS (any fair schedule; partial: no loss step in this one-executor model -- see the note above). From any state in which the controller
 is running (or has ended) and the failure is visible to a live executor, or its report is already in flight or in the
 controller's queue: after ANY schedule that contains, in this order, an executor iteration, a delivery and a controller
 iteration, `run` has ended — returned or raised; a controller that polls for ever (`starved`) does not count. -/
-theorem c05_never_hangs_partial (_hl : LosslessDelivery) (s : Sys) (sched : List Step) (hf : Fair sched)
+theorem c05_never_hangs_lossless_partial (s : Sys) (sched : List Step) (hf : Fair sched)
     (hns : s.ctrl.status ≠ .starved)
     (h0 : AtExecutor s ∨ HasFailure s.net ∨ HasFailure s.ctrlInbox) :
     Ended (runSchedule Gen.healthTable s sched) :=
